@@ -309,6 +309,88 @@ func TestC13Ed25519Internal(t *testing.T) {
 			}
 		})
 	})
+	t.Run("low-order-operands", func(t *testing.T) {
+		// the curve points with x = 0 or y = 0 ((0,1), (0,−1), (±√−1, 0)) added to multiples of G:
+		// the formulas are complete, verification feeds such public keys to doubleMult
+		sub := "special/ed25519-internal"
+		ref := curves.Ed25519
+		f := ref.F
+		var low []curves.EPoint
+		low = append(low, ref.Identity(), curves.EPoint{X: f.Int(0), Y: f.Int(-1)})
+		low = append(low, ref.LiftY(f.Int(0))...)
+		for _, p := range low {
+			if !ref.OnCurve(p) || !ref.IsIdentity(ref.Mul(big.NewInt(4), p)) {
+				t.Fatalf("SELFTEST-FAIL low-order point")
+			}
+		}
+		mkE := func(p curves.EPoint) *pointR1 {
+			var P pointR1
+			copy(P.x[:], vlib.LE(p.X.A, fp.Size))
+			copy(P.y[:], vlib.LE(p.Y.A, fp.Size))
+			fp.SetOne(&P.z)
+			P.ta, P.tb = P.x, P.y
+			return &P
+		}
+		es := func(p curves.EPoint) string { return p.X.A.Text(16) + ";" + p.Y.A.Text(16) }
+		vlib.Check(t, vlib.N(150, 600), func(t *rapid.T) {
+			i := rapid.IntRange(0, len(low)-1).Draw(t, "low1")
+			j := rapid.IntRange(0, len(low)-1).Draw(t, "low2")
+			a := big.NewInt(0)
+			if rapid.Bool().Draw(t, "plusMultiple") {
+				a, _ = c13Exp(t, "a")
+			}
+			b, _ := c13Exp(t, "b")
+			if rapid.IntRange(0, 3).Draw(t, "same") == 0 {
+				b = new(big.Int).Set(a)
+			}
+			m := big.NewInt(int64(rapid.IntRange(0, 40).Draw(t, "m")))
+			n := big.NewInt(int64(rapid.IntRange(0, 40).Draw(t, "n")))
+			if rapid.Bool().Draw(t, "big") {
+				m, _ = vlib.ScalarNear(t, r, 253, "mm")
+				n, _ = vlib.ScalarNear(t, r, 253, "nn")
+			}
+			vlib.Eval(sub)
+			vlib.Class(sub, fmt.Sprintf("low#%d+low#%d", i, j))
+			Pr := ref.Add(ref.MulG(a), low[i])
+			Qr := ref.Add(ref.MulG(b), low[j])
+			desc := fmt.Sprintf("P=%s Q=%s m=%s n=%s", es(Pr), es(Qr), m.Text(16), n.Text(16))
+			P, Q := mkE(Pr), mkE(Qr)
+			D := *P
+			D.double()
+			if got, want := c13Enc(&D), es(ref.Double(Pr)); got != want {
+				if c13Report(t, "double", "low-order-operand", got, want, desc) {
+					return
+				}
+			}
+			var R2 pointR2
+			R2.fromR1(Q)
+			S := *P
+			S.add(&R2)
+			if got, want := c13Enc(&S), es(ref.Add(Pr, Qr)); got != want {
+				if c13Report(t, "add", "low-order-operand", got, want, desc) {
+					return
+				}
+			}
+			S = D // un-normalised accumulator
+			S.add(&R2)
+			if got, want := c13Enc(&S), es(ref.Add(ref.Double(Pr), Qr)); got != want {
+				if c13Report(t, "add", "low-order-operand-projective", got, want, desc) {
+					return
+				}
+			}
+			// m·G + n·Q with Q outside the prime-order group: n is an integer here (no reduction mod r)
+			var V pointR1
+			Qc := *Q
+			V.doubleMult(&Qc, vlib.LE(m, paramB), vlib.LE(n, paramB))
+			if got, want := c13Enc(&V), es(ref.Add(ref.MulG(m), ref.Mul(n, Qr))); got != want {
+				if c13Report(t, "doubleMult", "low-order-operand", got, want, desc) {
+					return
+				}
+			}
+			vlib.NonTrivial(sub, "low-order-operand", []byte{byte(i), byte(j)}, a.Bytes(), []byte{0}, b.Bytes(), m.Bytes(), []byte{1}, n.Bytes())
+			vlib.Sample(sub, fmt.Sprintf("low#%d", i), desc)
+		})
+	})
 	t.Run("sweep", func(t *testing.T) {
 		// scalars next to 0, r, 2r, … and the top of the 32-byte width; small (m, n) grid with structured Q
 		sub := "sweep/ed25519-internal"
